@@ -37,6 +37,9 @@ THEOREMS = [
     "JanetModel.Props.C08.exactly_once_counterexample",
     "JanetModel.Props.C08.per_sender_order_partial",
     "JanetModel.Props.C08.per_sender_order_counterexample",
+    "JanetModel.Props.C08.writer_wakeup_forwarded",
+    "JanetModel.Props.C08.writer_wakeup_accepted",
+    "JanetModel.Props.C08.writer_wakeup_counterexample",
     "JanetModel.Props.C08.thread_returns_after_body",
     "JanetModel.Props.C08.thread_returns_after_body_counterexample",
     "JanetModel.Props.C08.refcount_ge_reachers",
@@ -46,6 +49,7 @@ THEOREMS = [
 ]
 CURRENT = [
     "JanetModel.Thread.Current.exactly_once_current",
+    "JanetModel.Thread.Current.forward_own_sched_id",
     "JanetModel.Thread.Current.thread_returns_after_body_current",
     "JanetModel.Thread.Current.refcount_ge_reachers_current",
 ]
@@ -177,6 +181,12 @@ def run(ctx, only_replay=None):
     for i in range(ntsan):
         r = ctx.rng.fork("ttopo%d" % i)
         jobs.append(("tsan", i, topo.gen_scenario(r), False, 0))
+    # ASan build + collections forced at ~1/30 of the interpreter safepoints in every thread (harness/C08/gcrun.c), topologies
+    # with several receiver fibers per thread: a message referenced only by the run queue / a pipe event must stay marked
+    ngc = (30 if quick else 600) if not ctx.nviol else 6
+    for i in range(ngc):
+        r = ctx.rng.fork("gtopo%d" % i)
+        jobs.append(("asan_gc", i, topo.gen_scenario(r, features={"gc", "select", "gabandon"} if i % 2 else None), False, r.below(1 << 30)))
     variants = {"plain": plain}
     for vn in ("asan", "tsan"):
         try:
@@ -185,6 +195,13 @@ def run(ctx, only_replay=None):
             broken.append("variant %s does not build: %s" % (vn, str(e)[-300:]))
             variants[vn] = None
 
+    variants["asan_gc"] = None
+    if variants.get("asan"):
+        try:
+            variants["asan_gc"] = {"janet": ctx.build.harness("asan", "c08gcrun", [os.path.join(VERIF, "harness/C08/gcrun.c")])}
+        except BuildError as e:
+            broken.append("gc-forcing runner does not compile against the current tree: %s" % str(e)[-300:])
+
     def one(job):
         vn, i, scn, perturb, pseed = job
         v = variants[vn]
@@ -192,6 +209,7 @@ def run(ctx, only_replay=None):
             return job, None, []
         env = dict(os.environ, **SAN_ENV)
         env["C08_PSEED"] = str(pseed)
+        env["C08_GCN"] = "30"
         res = topo.run_scenario(v["janet"], scn, env=env, timeout=60 if vn == "plain" else 150,
                                 preload=shim if (perturb and vn == "plain" and shim) else None)
         if vn == "tsan" and res["rc"] == 66:
@@ -226,6 +244,10 @@ def run(ctx, only_replay=None):
             cov_feat["cap:%d" % cap] = cov_feat.get("cap:%d" % cap, 0) + 1
         if d["aborts"]:
             cov_feat["abort-racing"] = cov_feat.get("abort-racing", 0) + 1
+        if d["gc_consumers"]:
+            cov_feat["gc-pressure-receivers"] = cov_feat.get("gc-pressure-receivers", 0) + 1
+        for x in d["giver_abandon"]:
+            cov_feat["giver-abandon:" + x] = cov_feat.get("giver-abandon:" + x, 0) + 1
         for sig, why in bad:
             if sig in reported:
                 continue
@@ -307,7 +329,7 @@ def run(ctx, only_replay=None):
                 "channel, per-sender order per receiver, ev/thread returned after body, supervisor messages exactly once in order, channels empty at end; "
                 "op sequences = random single-loop histories compared step by step with the Lean model",
         "samples": [topo.describe(j[2]) for j, r, b in results[:3]] + [" ".join(seqs[0])[:200] if seqs else ""],
-        "topology_runs": {vn: sum(1 for j, r, b in results if j[0] == vn and r is not None) for vn in ("plain", "asan", "tsan")},
+        "topology_runs": {vn: sum(1 for j, r, b in results if j[0] == vn and r is not None) for vn in ("plain", "asan", "tsan", "asan_gc")},
         "perturbed_runs": sum(1 for j, r, b in results if j[3] and shim and j[0] == "plain"),
         "messages_checked": sum(topo.describe(j[2])["messages"] for j, r, b in results if r is not None),
         "feature_counts": dict(sorted(cov_feat.items())),
@@ -341,7 +363,9 @@ def build_shim(ctx):
 def replay(ctx, path):
     r = json.load(open(path))
     print(json.dumps({k: v for k, v in r.items() if k not in ("logs", "scenario")}, indent=1)[:3000])
-    v = ctx.build.variant(r.get("variant", "plain") if r.get("variant") in ("plain", "asan", "tsan") else "plain")
+    v = ctx.build.variant(r.get("variant", "plain") if r.get("variant") in ("plain", "asan", "tsan") else ("asan" if r.get("variant") == "asan_gc" else "plain"))
+    if r.get("variant") == "asan_gc":
+        v = dict(v, janet=ctx.build.harness("asan", "c08gcrun", [os.path.join(VERIF, "harness/C08/gcrun.c")]))
     if r.get("kind") == "topology":
         scn = topo.scn_from_json(r["scenario"])
         fails = 0
